@@ -35,6 +35,16 @@ def impl_one(args):
             # the same tree built with shorthand operands (str for atoms, bool for constants)
             from checks.c11 import to_obj_short
             f = to_obj_short(tree, L)
+        elif entry == 'dag':
+            # equal subtrees are ONE shared object (x = X(p); And(x, x)): formulas are DAGs in ordinary Python use
+            memo = {}
+
+            def build(t):
+                if t not in memo:
+                    memo[t] = to_obj(t, L) if (t in ('tt', 'ff') or t[0] == 'ap') else \
+                        getattr(L, common.CLASSNAME[t[0]])(*[build(c) for c in t[1:]])
+                return memo[t]
+            f = build(tree)
         elif entry.startswith('obj@'):
             # an object built with the classes of ANOTHER language module
             f = to_obj(tree, lang(entry[4:]))
